@@ -11,5 +11,6 @@ func init() {
 	taskHandlers["C08"] = fast.Handle
 	taskHandlers["C09"] = fast.Handle
 	taskHandlers["C10"] = fast.Handle
+	taskHandlers["C14"] = fast.Handle
 	taskHandlers["C18"] = c18.Handle
 }
